@@ -92,8 +92,10 @@ def main(tier):
         n_rl += 1
         if (a == b) is not exp or (a != b) is not (not exp):
             rep.fail("Range equality not structural", {"a": [s1, e1], "b": [s2, e2], "eq": repr(a == b), "ne": repr(a != b)})
-    uris = ["file:///a", "file:///b", ""]
-    for (u1, (s1, e1)), (u2, (s2, e2)) in itertools.product(itertools.product(uris, rngs[:6]), repeat=2):
+    # hostile URI strings: equal only if the strings are equal (no decoding, case folding or
+    # Unicode normalisation may happen in a *structural* comparison)
+    uris = ["file:///a", "file:///b", "", "file:///c%3A/x%20y", "file:///c:/x y", "file:///C%3a/x%20y", "FILE:///a", "file:///a/", "file:///caf\u00e9", "file:///cafe\u0301", "file:///a#frag", "file:///a?q=1", " file:///a", "file:///A"]
+    for (u1, (s1, e1)), (u2, (s2, e2)) in itertools.product(itertools.product(uris, rngs[:3]), repeat=2):
         a, b = L(u1, R(P(*s1), P(*e1))), L(u2, R(P(*s2), P(*e2)))
         exp = (u1, s1, e1) == (u2, s2, e2)
         n_rl += 1
